@@ -236,15 +236,23 @@ def def_blocks(body, name):
 
 def walk_decision(sc, start, atom_value, target_blocks, maxsteps=200):
     """walk the CFG from `start`, resolving every switch through atom_value(node) -> switch value string;
-    `?` (Try::branch) switches take the Continue edge.  Returns the first block of target_blocks reached, or
+    `?` (Try::branch) switches take the Continue edge.  A switch on a local that has several definitions (`let x = match .. { .. }; if x {..}`)
+    is resolved through the value assigned to it on the path walked.  Returns the first block of target_blocks reached, or
     ('stuck', node) if a switch cannot be resolved, or None."""
     body = sc.body
     b = start
     first = True
+    env = {}
     for _ in range(maxsteps):
         if b in target_blocks and not first:
             return b
         first = False
+        for s_ in body.blocks[b]["st"]:
+            if s_["s"] == "assign" and isinstance(s_["p"], int):
+                try:
+                    env[s_["p"]] = sc.rvalue(s_["rv"])
+                except Exception:
+                    env.pop(s_["p"], None)
         t = body.blocks[b]["term"]
         k = t["t"]
         if b in target_blocks and k != "switch":
@@ -255,6 +263,11 @@ def walk_decision(sc, start, atom_value, target_blocks, maxsteps=200):
         if k in ("call", "drop", "assert"):
             if "to" not in t:
                 return None
+            if k == "call" and isinstance(t.get("dest"), int):
+                try:
+                    env[t["dest"]] = sc._rw(sc.eb.call_node(t, b))
+                except Exception:
+                    env.pop(t["dest"], None)
             b = t["to"]
             continue
         if k == "switch":
@@ -264,6 +277,11 @@ def walk_decision(sc, start, atom_value, target_blocks, maxsteps=200):
                 v = "0"
             else:
                 v = atom_value(n)
+                seen_ = 0
+                while v is None and n[0] == "var" and n[1] in env and seen_ < 4:
+                    n = strip(env[n[1]])
+                    v = atom_value(n)
+                    seen_ += 1
             if v is None:
                 return ("stuck", n)
             nxt = None
